@@ -28,7 +28,7 @@ def main():
                 for f in os.listdir(src):
                     if f.endswith(".tla"):
                         shutil.copy(os.path.join(src, f), scratch)
-            p = subprocess.run(["java", "-cp", JAR_CP, "tla2sany.SANY", fn], cwd=scratch,
+            p = subprocess.run(["java", "-Djava.io.tmpdir=" + scratch, "-cp", JAR_CP, "tla2sany.SANY", fn], cwd=scratch,
                                stdout=subprocess.PIPE, stderr=subprocess.STDOUT, text=True)
             ok = p.returncode == 0 and "*** Errors" not in p.stdout and "Parse Error" not in p.stdout \
                 and "Fatal errors" not in p.stdout
